@@ -189,6 +189,34 @@ def state_isolation(stmts, is_fold):
     return out
 
 
+def _untuple(stmts):
+    """`let (a, b) = (x, y);`, `let t = (x, y);` and `(l1, l2) = (r1, r2);` / `(l1, l2) = t;` as the single bindings / assignments they stand for"""
+    out, tuples = [], {}
+    for st in stmts:
+        k = st.get("k")
+        if k == "local" and st.get("init") is not None and st["init"].get("k") == "tuple" and st.get("else") is None:
+            els = st["init"]["e"]
+            if st["pat"].get("k") == "p_tuple" and len(st["pat"]["e"]) == len(els):
+                out += [{"k": "local", "l": st["l"], "pat": p_, "init": e_} for p_, e_ in zip(st["pat"]["e"], els)]
+                continue
+            if st["pat"].get("k") == "p_ident":
+                nm = st["pat"]["n"]
+                tuples[nm] = len(els)
+                out += [{"k": "local", "l": st["l"], "pat": {"k": "p_ident", "l": st["l"], "n": f"{nm}__{i}"}, "init": e_} for i, e_ in enumerate(els)]
+                continue
+        if k == "assign" and st["lhs"].get("k") == "tuple":
+            ls = st["lhs"]["e"]
+            if st["rhs"].get("k") == "tuple" and len(st["rhs"]["e"]) == len(ls):
+                out += [{"k": "assign", "l": st["l"], "lhs": l_, "rhs": r_, "semi": True} for l_, r_ in zip(ls, st["rhs"]["e"])]
+                continue
+            if st["rhs"].get("k") == "path" and tuples.get(st["rhs"]["p"]) == len(ls):
+                nm = st["rhs"]["p"]
+                out += [{"k": "assign", "l": st["l"], "lhs": l_, "rhs": {"k": "path", "l": st["l"], "p": f"{nm}__{i}"}, "semi": True} for i, l_ in enumerate(ls)]
+                continue
+        out.append(st)
+    return out
+
+
 def join_append_isolation(fl):
     """Per state field of the Flattener: (saved before, emptied before, restored after) the folding of a Join / Append argument.
     saved+emptied: `let x = std::mem::take(&mut self.F)` / `self.F.take()` / `mem::replace(&mut self.F, ..)`, or a clone followed by a clear;  restored: `self.F = x`."""
@@ -198,7 +226,7 @@ def join_append_isolation(fl):
         for arm in m["arms"]:
             pt = show(arm["pat"], maxdepth=8)
             if "TransformKind::Join" in pt and "TransformKind::Append" in pt and arm["body"].get("k") == "block":
-                st = [show_stmts({"k": "block", "s": [x]}, maxdepth=8) for x in arm["body"]["s"]]
+                st = [show_stmts({"k": "block", "s": [x]}, maxdepth=8) for x in _untuple(arm["body"]["s"])]
                 i_fold = [i for i, t in enumerate(st) if "fold_transform_kind(self, " in t]
                 if not i_fold:
                     continue
@@ -329,19 +357,46 @@ def r5(ctx, rep):
     import alpha
     A = alpha.Inliner(f)
     lab = lambda t: "<take>" if t.startswith("range_of_ranges(") and t.endswith("?") else None
-    take_def = None
-    off_txt = None
+    # OFFSET is the integer put into the literal of the Offset clause, LIMIT the receiver of `.map(expr_of_i64)`; both are evaluated
+    # abstractly over the composed take range (start / end present or not), locals followed on demand
+    import optlin
+    off_arg = None
     for n in walk(f["body"]):
-        if n.get("k") == "call" and show(n["f"]).endswith("Literal::Integer") and n["a"] and off_txt is None and n["a"][0].get("k") == "path":
-            off_txt = A.show(n["a"][0], label=lab)
-    want_off = "<take>.start.map(|_c0| (_c0 - 1)).unwrap_or(0)"
-    rep.check(off_txt == want_off, "offset", f"OFFSET must be start - 1 of the composed take range (0 when there is no start): rows are 1-based; found `{off_txt}`", file=f["file"], line=f["l"], fn=f["path"])
-    lim_txt = None
+        if n.get("k") == "call" and show(n["f"]).endswith("Literal::Integer") and n["a"] and off_arg is None and n["a"][0].get("k") == "path":
+            off_arg = n["a"][0]
+    lim_recv = None
     for n in walk(f["body"]):
         if n.get("k") == "mcall" and n["m"] == "map" and n["a"] and show(n["a"][0]) == "expr_of_i64":
-            lim_txt = A.show(n["r"], label=lab)
-    rep.check(lim_txt is not None and re.sub(r"_c\d", "_c", lim_txt) == re.sub(r"_c\d", "_c", f"<take>.end.map(|_c0| (_c0 - {want_off}))"), "limit",
-              f"LIMIT must be end - offset (number of rows from start to end inclusive); found `{lim_txt}`", file=f["file"], line=f["l"], fn=f["path"])
+            lim_recv = n["r"]
+    take_name = None
+    for st in f["body"]["s"]:
+        if st.get("k") == "local" and st["pat"].get("k") == "p_ident" and st.get("init") is not None and "range_of_ranges(" in show(st["init"], maxdepth=6):
+            take_name = st["pat"]["n"]
+    bad_off, bad_lim = [], []
+    if off_arg is None or lim_recv is None or take_name is None:
+        bad_off = bad_lim = ["anchor (Literal::Integer(<offset>) / .map(expr_of_i64) / range_of_ranges) not found"]
+    else:
+        for has_s in (True, False):
+            for has_e in (True, False):
+                env = {take_name: {"start": optlin.some(optlin.lin("start")) if has_s else optlin.NONE, "end": optlin.some(optlin.lin("end")) if has_e else optlin.NONE}}
+                look = lambda name, node: A._init_of(node, name)
+                want_off = optlin.add(optlin.lin("start"), optlin.lin(None, 1), -1) if has_s else optlin.lin(None, 0)
+                want_lim = optlin.some(optlin.add(optlin.lin("end"), want_off, -1)) if has_e else optlin.NONE
+                case = f"start {'present' if has_s else 'absent'}, end {'present' if has_e else 'absent'}"
+                try:
+                    got = optlin.Interp(lookup=look).ev(off_arg, dict(env))
+                    if got != want_off:
+                        bad_off.append(f"{case}: {got}")
+                except optlin.Unsupported as e:
+                    bad_off.append(f"{case}: unreadable ({e})")
+                try:
+                    got = optlin.Interp(lookup=look).ev(lim_recv, dict(env))
+                    if got != want_lim:
+                        bad_lim.append(f"{case}: {got}")
+                except optlin.Unsupported as e:
+                    bad_lim.append(f"{case}: unreadable ({e})")
+    rep.check(not bad_off, "offset", f"OFFSET must be start - 1 of the composed take range (0 when there is no start): rows are 1-based; found {bad_off[:2]}", file=f["file"], line=f["l"], fn=f["path"])
+    rep.check(not bad_lim, "limit", f"LIMIT must be end - offset (number of rows from start to end inclusive); found {bad_lim[:2]}", file=f["file"], line=f["l"], fn=f["path"])
     comp = [A.show(n, label=None) for n in walk(f["body"]) if n.get("k") == "try" and n["e"].get("k") == "call" and last_seg(show(n["e"]["f"])) == "range_of_ranges"]
     rep.check(len(comp) == 1 and ".into_take())" in comp[0].replace("…", "_c0") and ".map(|_c0| _c0.range).collect()" in comp[0], "takes-composed",
               f"the takes plucked from the atomic pipeline must be composed by range_of_ranges; found {comp}", file=f["file"], line=f["l"], fn=f["path"])
